@@ -109,7 +109,7 @@ def py_to_val(v: Any, ty: Ty | None = None) -> Val:
 			kt = py_to_val(k, ty.key).term
 			dom = z3.Store(dom, kt, z3.BoolVal(True))
 			vals = z3.Store(vals, kt, py_to_val(x, ty.val).term)
-		return Val(ty, ty.mk(dom, vals), dict(v))
+		return Val(ty, ty.mk(dom, vals, z3.IntVal(len(v))), dict(v))
 	raise EngineError(f'cannot lift python value {v!r} to {ty}')
 
 
